@@ -1,6 +1,6 @@
 (* C01 — explicit tree-automata inclusion is exact under every algorithm selection. Statements only. *)
 From Coq Require Import List NArith Bool.
-From V Require Import Sem Prod Incl TrimDefs TrimProofs Lang InclDefs InclProofs AntichainUp DownIncl BinopDefs BinopProofs ReduceDefs ReduceProofs DownInclSim SharedTable.
+From V Require Import Sem Prod Incl TrimDefs TrimProofs Lang InclDefs InclProofs AntichainUp DownIncl BinopDefs BinopProofs ReduceDefs ReduceProofs DownInclSim SharedTable DownInclCacheDefs DownInclCacheProofs.
 
 (* the verdict function every selection must compute (prepare by trimming, then decide) is exact *)
 Theorem C01_exact : forall v A B, incl_model v A B = true <-> (forall t, accepts A t -> accepts B t).
@@ -58,6 +58,16 @@ Proof. exact shared_finals_incl. Qed.
 Theorem C01_shared_table_finals_not_necessary : exists A F G, lincl (with_finals F A) (with_finals G A) /\ ~ fsub F G.
 Proof. exact shared_finals_incl_not_necessary. Qed.
 
+(* (A) the same algorithm WITH the cache of positive answers. One cache per expansion (it dies with the expansion, as in
+   DownwardInclusionFunctor): whatever the fuel, an answer is the truth. ONE cache for the whole computation: "included" is answered for a
+   pair that is not (an answer obtained under a coinductive hypothesis outlives the refutation of the hypothesis). *)
+Theorem C01_down_cache_scoped_partial_correct : forall A B fuel b, downc_incl false A B fuel = Some b -> (b = true <-> forall t, accepts A t -> accepts B t).
+Proof. exact downc_scoped_partial_correct. Qed.
+Theorem C01_down_cache_scoped_refines : forall A B fuel b, downc_incl false A B fuel = Some b -> b = incl_dec A B.
+Proof. exact downc_scoped_refines. Qed.
+Theorem C01_down_cache_shared_refuted : downc_incl true trapA trapB 30 = Some true /\ ~ lincl trapA trapB /\ downc_incl false trapA trapB 30 = Some false.
+Proof. exact downc_shared_refuted. Qed.
+
 Print Assumptions C01_exact.
 Print Assumptions C01_down_sim_partial_correct.
 Print Assumptions C01_down_partial_correct.
@@ -74,3 +84,6 @@ Print Assumptions C01_nonrec_leaf.
 Print Assumptions C01_nonrec_leaf_old_refuted.
 Print Assumptions C01_shared_table_finals_sufficient.
 Print Assumptions C01_shared_table_finals_not_necessary.
+Print Assumptions C01_down_cache_scoped_partial_correct.
+Print Assumptions C01_down_cache_scoped_refines.
+Print Assumptions C01_down_cache_shared_refuted.
